@@ -39,10 +39,6 @@ package core
 //@   modifies c.inMsgQueue, c.inFragQueue, c.outFragQueue, elastic.RingBuffer.rb, ring.Buffer.r, ring.Buffer.w, ring.Buffer.isEmpty
 //@   ensures !c.opened && closedfx(c)
 
-//@ func msgPool.Put
-//@   flags trusted
-//@   modifies m.Id, m.Type, m.Owner, m.Body, m.RspBody, m.Done, m.Error, m.Fd2Slot, m.Keys, m.Frags, m.Frags2, m.FragDoneNumber, m.DelNum, m.prev, m.next
-
 //@ define alldone(l) = forall i int :: 0 <= i && i < l.count ==> mqm(l, i).Done
 //@ define cl(c) = c.inMsgQueue
 
@@ -51,23 +47,43 @@ package core
 // The representation invariants of the objects an iteration starts from (the backend connection's awaiting-reply
 // queue, the owning client's request queue) are assumed at the calls that first use them: they are properties of
 // the whole object graph, each queue operation being verified to preserve them for its own queue.
+//@ define gn(c) = atlabel(G, cl(c).count)
+//@ define gw(c) = atlabel(G, c.wcount)
+
 //@ func eventloop.sread
-//@   props WIP
+//@   props C01 C03 C09 C11 C13
 //@   requires s != nil && s.loop != nil && EngineGlobal != nil && el.eventHandler != nil && s.opened
+//@   requires forall a string :: has(EngineGlobal.ProxyPool, a) ==> EngineGlobal.ProxyPool[a] != nil
 //@   assume at call conn.sread#0 :: s.inFragQueue != nil && fwf(s.inFragQueue)
 //@   assume at call conn.sread#0 :: (hd(s) != nil && hd(s).Peer != nil) ==> (forall k int32 :: has(hd(s).Peer.Body, k) ==> hd(s).Peer.Body[k] != nil)
 //@   assume at call conn.sread#0 :: (hd(s) != nil && hd(s).Peer != nil) ==> (hd(s).Peer.RspBody == nil || hd(s).RspBody == nil || hd(s).RspBody.base != hd(s).Peer.RspBody.base)
+//@   assume at call listenServer.OnMoved#0 :: r.Peer.Fd2Slot != nil
+//@   label E at call Errorf#0
 //@   label G at call MsgQueue.Empty#0
 //@   assume at call MsgQueue.Empty#0 :: cl(c) != nil && mwf(cl(c)) && c.loop != nil
 //@   loop 0
 //@     invariant s != nil && s.loop != nil && EngineGlobal != nil && el.eventHandler != nil
+//@     invariant forall a string :: has(EngineGlobal.ProxyPool, a) ==> EngineGlobal.ProxyPool[a] != nil
+//@     invariant[nospin@C11] !reached(E)
 //@     invariant[gate@C09] reached(G) ==> (atlabel(G, alldone(cl(c))) ==> (!c.opened || cl(c).count == 0))
 //@   loop 1
-//@     invariant true
+//@     modifies capmem(bs)
+//@     invariant c != nil && c.opened && c.loop != nil && cl(c) != nil && mwf(cl(c)) && cl(c) == atlabel(G, cl(c)) && cl(c).count == gn(c) && c.wcount == gw(c)
+//@     invariant 0 <= len(bs) && len(bs) <= gn(c) && cur == mq(cl(c), len(bs)) && qnth_unfold(heap(Msg.prev), cl(c).head, len(bs)) && qnth_unfold(heap(Msg.prev), cl(c).head, len(bs) + 1)
+//@     invariant cap(bs) == gn(c) && fresh(bs) && sameback(bs)
+//@     invariant forall k int :: 0 <= k && k < len(bs) ==> bs[k] == mqm(cl(c), k).RspBody
 //@   loop 2
-//@     invariant true
+//@     modifies c.opened, c.buffer, c.localAddr, c.remoteAddr, c.pollAttachment, c.initStep, c.initStatus, c.isSlave, c.connType
+//@     modifies c.inMsgQueue, c.inFragQueue, c.outFragQueue, c.wcount, c.wlog, elastic.RingBuffer.rb, ring.Buffer.r, ring.Buffer.w, ring.Buffer.isEmpty, capmem(bs)
+//@     invariant c != nil && c.loop != nil && fresh(bs) && 0 <= len(bs) && len(bs) <= gn(c)
+//@     invariant bs.base == pre(bs.base) && pre(bs.off) <= bs.off && bs.off + len(bs) == pre(bs.off) + pre(len(bs)) && pre(len(bs)) == gn(c)
+//@     invariant c.opened ==> (cl(c) == atlabel(G, cl(c)) && cl(c) != nil && mwf(cl(c)) && cl(c).count == gn(c) && c.wcount == gw(c) + gn(c) - len(bs))
+//@     invariant c.opened ==> (forall i int :: 0 <= i && i < gn(c) - len(bs) ==> c.wlog[gw(c) + i] == atlabel(G, mqm(cl(c), i).RspBody))
+//@     invariant forall i int :: (gn(c) - len(bs) <= i && i < gn(c)) ==> bs[i - (gn(c) - len(bs))] == atlabel(G, mqm(cl(c), i).RspBody)
 //@   loop 3
-//@     invariant true
+//@     invariant c != nil && c.opened && c.loop != nil && cl(c) != nil && mwf(cl(c)) && cl(c) == atlabel(G, cl(c))
+//@     invariant[flush.count@C01] c.wcount == gw(c) + gn(c)
+//@     invariant[flush.order@C01] forall i int :: 0 <= i && i < gn(c) ==> c.wlog[gw(c) + i] == atlabel(G, mqm(cl(c), i).RspBody)
 
 //@ func eventloop.cread
 //@   props WIP
